@@ -401,6 +401,19 @@ func (sc script) currentType(i int) int {
 }
 
 func compareDeliveries(exp, got []delivery, viaReader bool) (string, string) {
+	if viaReader {
+		// a close message with a 1 byte payload is not a valid close payload (RFC 6455 5.5.1); what a reader
+		// makes of it (1005 or a protocol error) is the reader's business (C29): nothing follows a close anyway
+		for i, e := range exp {
+			if e.Type == 8 && len(e.Data) == 1 {
+				exp = exp[:i]
+				if len(got) > i {
+					got = got[:i]
+				}
+				break
+			}
+		}
+	}
 	for i := 0; i < len(exp) && i < len(got); i++ {
 		e, g := exp[i], got[i]
 		if e.Type != g.Type {
@@ -408,9 +421,6 @@ func compareDeliveries(exp, got []delivery, viaReader bool) (string, string) {
 		}
 		if e.Type == 8 && viaReader {
 			// the reader reports (code, text); 0 bytes = 1005; a 1 byte payload is outside RFC 6455 (C29's business)
-			if len(e.Data) == 1 {
-				continue
-			}
 			want := []byte{0x03, 0xed} // 1005
 			if len(e.Data) >= 2 {
 				want = e.Data
